@@ -21,6 +21,7 @@ def ensure_repo_on_path():
     """Checks always run the *current working tree* of the repository."""
     if sys.path[0] != REPO:
         sys.path.insert(0, REPO)
+    os.environ['PYCDLIB_VERIF'] = '1'      # the guard of the one hook in /repo (multi-extent threshold); see MANIFEST.hooks
     import pycdlib  # noqa
     here = os.path.realpath(os.path.dirname(pycdlib.__file__))
     want = os.path.realpath(os.path.join(REPO, 'pycdlib'))
@@ -182,7 +183,10 @@ CACHED_METHODS = ('_find_iso_record', '_find_rr_record', '_find_joliet_record', 
 class World:
     """One run = one World.  ``seed`` is the per-run seed."""
 
-    def __init__(self, seed, tz=None, clock0=None, clock_mode=None, cache=None):
+    DEFAULT_MAX_EXTENT = 0xfffff800
+
+    def __init__(self, seed, tz=None, clock0=None, clock_mode=None, cache=None, max_extent=None):
+        self.max_extent = max_extent  # multi-extent threshold (pycdlib's guarded hook); None = shipped value
         self.seed = int(seed)
         self._rngs = {}
         env = self.rng('env')
@@ -273,6 +277,10 @@ class World:
             setattr(pm.PyCdlib, name, functools.lru_cache(maxsize=self.cache)(f.__wrapped__))
         dm = importlib.import_module('pycdlib.dates')
         dm.string_to_timestruct.cache_clear()
+        # tuning knob behind pycdlib's guarded hook: the length at which a file is split into several extents
+        if hasattr(pm, '_MAX_EXTENT_LENGTH'):
+            self._saved.append((pm, '_MAX_EXTENT_LENGTH', pm._MAX_EXTENT_LENGTH))
+            pm._MAX_EXTENT_LENGTH = self.max_extent or self.DEFAULT_MAX_EXTENT
         self._installed = True
 
     def new_generation(self):
